@@ -14,6 +14,7 @@ import (
 	"os"
 	"os/exec"
 	"path/filepath"
+	"runtime/debug"
 	"sort"
 	"strconv"
 	"strings"
@@ -340,6 +341,7 @@ func runWorker(spec string, thorough bool, deadline time.Time) {
 func main() {
 	for i, a := range os.Args {
 		if a == "-worker" {
+			debug.SetGCPercent(800)
 			var err error
 			scratch, err = os.MkdirTemp("/dev/shm", "verif-c10w-")
 			if err != nil {
